@@ -53,11 +53,13 @@ void sbuf_cut(struct sbuf *s, int len);
 /* regular expression sets: searching for multiple regular expressions */
 struct rset *rset_make(int n, char **pat, int flg);
 int rset_find(struct rset *re, char *s, int n, int *grps, int flg);
+int rset_findat(struct rset *re, char *s, int off, int n, int *grps, int flg);
 void rset_free(struct rset *re);
 char *re_read(char **src);
 /* searching for a single pattern regular expression */
 struct rstr *rstr_make(char *re, int flg);
 int rstr_find(struct rstr *rs, char *s, int n, int *grps, int flg);
+int rstr_findat(struct rstr *rs, char *s, int off, int n, int *grps, int flg);
 void rstr_free(struct rstr *rs);
 
 /* rendering lines */
